@@ -106,10 +106,17 @@ impl Powers {
     pub fn insert(&mut self, unit: Unit, power: i32) {
         match self.powers.entry(unit) {
             btree_map::Entry::Vacant(e) => {
-                e.insert(power);
+                if power != 0 {
+                    e.insert(power);
+                }
             }
             btree_map::Entry::Occupied(mut e) => {
                 *e.get_mut() += power;
+
+                // Units which cancel out are not part of the collection.
+                if *e.get() == 0 {
+                    e.remove();
+                }
             }
         }
     }
